@@ -21,25 +21,36 @@ type emitSite struct {
 	conds []condLit
 	pos   token.Pos
 	recv  types.Object
+	binds map[types.Object]condLit // boolean parameters of a helper bound to the call-site expressions
 }
 
 type condLit struct {
-	e   ast.Expr
-	neg bool
+	e    ast.Expr
+	neg  bool
+	recv types.Object // root object the expression's receiver paths are relative to (nil: the site's)
 }
 
 // emitSites lists the json.Marshal sites of an encoder whose argument is the
 // receiver component comp (by first path step), or an anonymous proxy
 // populated from it. Whole-receiver conversions count for every component.
 func (c *Ctx) emitSites(fd *ast.FuncDecl, comp string) []emitSite {
-	recv := c.recvObj(fd)
+	return c.emitSitesFor(fd, c.recvObj(fd), comp, nil, 0)
+}
+
+func (c *Ctx) emitSitesFor(fd *ast.FuncDecl, recv types.Object, comp string, binds map[types.Object]condLit, depth int) []emitSite {
 	var out []emitSite
 	var stack []condLit
 	var walk func(n ast.Node)
 	walkList := func(l []ast.Stmt) {
-		for _, s := range l {
-			walk(s)
+		pushed := 0
+		for _, st := range l {
+			walk(st)
+			if ifs, ok := st.(*ast.IfStmt); ok && ifs.Else == nil && blockAlwaysReturns(ifs.Body) {
+				stack = append(stack, condLit{e: ifs.Cond, neg: true})
+				pushed++
+			}
 		}
+		stack = stack[:len(stack)-pushed]
 	}
 	walk = func(n ast.Node) {
 		switch s := n.(type) {
@@ -49,7 +60,7 @@ func (c *Ctx) emitSites(fd *ast.FuncDecl, comp string) []emitSite {
 			if s.Init != nil {
 				walk(s.Init)
 			}
-			stack = append(stack, condLit{s.Cond, false})
+			stack = append(stack, condLit{e: s.Cond, neg: false})
 			walk(s.Body)
 			stack[len(stack)-1].neg = true
 			if s.Else != nil {
@@ -63,7 +74,7 @@ func (c *Ctx) emitSites(fd *ast.FuncDecl, comp string) []emitSite {
 			for _, st := range s.List {
 				walk(st)
 				if ifs, ok := st.(*ast.IfStmt); ok && ifs.Else == nil && blockAlwaysReturns(ifs.Body) {
-					stack = append(stack, condLit{ifs.Cond, true})
+					stack = append(stack, condLit{e: ifs.Cond, neg: true})
 					pushed++
 				}
 			}
@@ -83,6 +94,46 @@ func (c *Ctx) emitSites(fd *ast.FuncDecl, comp string) []emitSite {
 			case *ast.FuncLit:
 				return false
 			case *ast.CallExpr:
+				// a package helper that receives the component (or the whole receiver) and encodes it
+				if g, ok := c.callee(x).(*types.Func); ok && g.Pkg() == c.Types && depth < 2 {
+					if gfd := c.decl(g); gfd != nil && gfd.Body != nil {
+						for ai, a := range x.Args {
+							p, ok := c.apath(a)
+							if !ok || p.Root != recv {
+								continue
+							}
+							if !(comp == "" && len(p.Steps) == 0 || len(p.Steps) == 1 && p.Steps[0] == comp) {
+								continue
+							}
+							gp := c.paramObj(gfd, ai)
+							if gp == nil {
+								continue
+							}
+							gb := map[types.Object]condLit{}
+							for k, v := range binds {
+								gb[k] = v
+							}
+							for bi, ba := range x.Args {
+								if bp := c.paramObj(gfd, bi); bp != nil {
+									if b, isB := bp.Type().Underlying().(*types.Basic); isB && b.Kind() == types.Bool {
+										gb[bp] = condLit{e: ba, recv: recv}
+									}
+								}
+							}
+							for _, sub := range c.emitSitesFor(gfd, gp, "", gb, depth+1) {
+								conds := append([]condLit{}, stack...)
+								for i := range conds {
+									if conds[i].recv == nil {
+										conds[i].recv = recv
+									}
+								}
+								sub.conds = append(conds, sub.conds...)
+								sub.binds = gb
+								out = append(out, sub)
+							}
+						}
+					}
+				}
 				if !c.isPkgFunc(x, "encoding/json", "Marshal") || len(x.Args) != 1 {
 					return true
 				}
@@ -157,12 +208,25 @@ func (e defEnv) member(m string) (constant.Value, bool) {
 // evalCond partially evaluates a branch condition of an encoder under a
 // definition: 1 true, 0 false, -1 unknown.
 func (c *Ctx) evalCond(e ast.Expr, recv types.Object, env defEnv) int {
+	return c.evalCondB(e, recv, env, nil)
+}
+
+func (c *Ctx) evalCondB(e ast.Expr, recv types.Object, env defEnv, binds map[types.Object]condLit) int {
 	e = unparen(e)
+	if id, ok := e.(*ast.Ident); ok && binds != nil {
+		if b, bound := binds[c.objOf(id)]; bound {
+			v := c.evalCondB(b.e, b.recv, env, nil)
+			if v >= 0 && b.neg {
+				v = 1 - v
+			}
+			return v
+		}
+	}
 	switch x := e.(type) {
 	case *ast.BinaryExpr:
 		switch x.Op {
 		case token.LAND:
-			a, b := c.evalCond(x.X, recv, env), c.evalCond(x.Y, recv, env)
+			a, b := c.evalCondB(x.X, recv, env, binds), c.evalCondB(x.Y, recv, env, binds)
 			if a == 0 || b == 0 {
 				return 0
 			}
@@ -171,7 +235,7 @@ func (c *Ctx) evalCond(e ast.Expr, recv types.Object, env defEnv) int {
 			}
 			return -1
 		case token.LOR:
-			a, b := c.evalCond(x.X, recv, env), c.evalCond(x.Y, recv, env)
+			a, b := c.evalCondB(x.X, recv, env, binds), c.evalCondB(x.Y, recv, env, binds)
 			if a == 1 || b == 1 {
 				return 1
 			}
@@ -193,7 +257,7 @@ func (c *Ctx) evalCond(e ast.Expr, recv types.Object, env defEnv) int {
 		}
 	case *ast.UnaryExpr:
 		if x.Op == token.NOT {
-			v := c.evalCond(x.X, recv, env)
+			v := c.evalCondB(x.X, recv, env, binds)
 			if v < 0 {
 				return -1
 			}
@@ -376,7 +440,11 @@ func (c *Ctx) decideRequired(rule, key string, n *types.Named, d *metaDef, m str
 			for _, s := range sites {
 				reach := 1
 				for _, cl := range s.conds {
-					v := c.evalCond(cl.e, s.recv, env)
+					r := s.recv
+					if cl.recv != nil {
+						r = cl.recv
+					}
+					v := c.evalCondB(cl.e, r, env, s.binds)
 					if v >= 0 && cl.neg {
 						v = 1 - v
 					}
